@@ -13,8 +13,9 @@ observed so far; every op applies the corresponding environment action(s) and ex
 model's atomic steps until nothing is enabled (`settle`).  The model output is the implementation's output if some
 reachable quiescent model state renders to it, otherwise the first possible rendering (→ mismatch).
 
-Ops:  reset <proto> <modern> <try> <scripts> | login | req <s> | start <s> | release | par <a> <b> | race <a> <b>
-      | kick <s> | drop <s> | quit
+Ops:  reset <proto> <modern> <try> <scripts> | login | loginstall | req <s> | start <s> | release | par <a> <b>
+      | race <a> <b> | kick <s> | drop <s> | quit | create <k> <s> (CreateConnectionRequest only; the object is kept)
+      | conn <k> <s> (Connect on the kept object)
 Spec verdict (independent of the model, on the implementation's output): see `judge`.
 -/
 namespace Gate.C16
@@ -26,7 +27,9 @@ def srcCfg (modern : Bool) (try_ : List Nat) : Cfg :=
   { modern := modern, try_ := try_,
     atomicSet := Gate.Gen.C16.internalConnectCalls.contains "c.checkServerAndSetInFlight" &&
                  !Gate.Gen.C16.internalConnectCalls.contains "c.player.setInFlightConnection",
-    foreignReset := Gate.Gen.C16.connectCalls.contains "c.player.resetInFlightConnection" }
+    foreignReset := Gate.Gen.C16.connectCalls.contains "c.player.resetInFlightConnection",
+    -- handleJoinGame unlocks the player lock on both branches of `existingConn != nil` iff the lookup is unconditional
+    joinBySnapshot := (Gate.Gen.C16.handleJoinGameCalls.filter (· == "b.serverConn.player.mu.Unlock")).length < 2 }
 
 def behOfString : String → Option Beh
   | "a" => some .accept | "r" => some .refuse | "kl" => some .kickLogin | "el" => some .eofLogin
@@ -69,15 +72,16 @@ def optS (o : Option Nat) : String := match o with | some n => toString n | none
 def key (s : St) : String :=
   let cs := (range s.nconns).map fun c =>
     let C := s.conns c
-    s!"{C.server}/{repr C.beh}/{C.stalled}/{repr C.phase}/{repr C.h}/{optS C.jold}/{C.completedJoin}/{repr C.result}"
+    s!"{C.server}/{repr C.beh}/{C.stalled}/{repr C.phase}/{repr C.h}/{optS C.jold}/{C.completedJoin}/{repr C.result}/{optS C.prev}"
   let ts := (range s.ntasks).map fun i =>
     let T := s.tasks i
-    s!"{repr T.pc}/{repr T.mode}/{T.orig}/{T.dest}/{repr T.ev}/{optS T.conn}/{repr T.res}"
+    s!"{repr T.pc}/{repr T.mode}/{T.orig}/{T.dest}/{repr T.ev}/{optS T.conn}/{repr T.res}/{optS T.prev}/{T.tag}"
   let sc := (range 8).map fun n => toString (repr (s.scripts n))
   s!"{cs}|{ts}|{optS s.inFlight}|{optS s.current}|{s.players}|{s.active}|{s.clientPlay}|{s.tryIndex}|{sc}"
 
+/-- a kept request object moves only when the harness calls Connect on it -/
 def internalActs (s : St) : List Act :=
-  (range s.ntasks).map Act.task ++ (range s.nconns).map Act.back
+  ((range s.ntasks).filter fun i => (s.tasks i).pc != .created).map Act.task ++ (range s.nconns).map Act.back
 
 /-- Partial-order reduction.  A step is *safe* when it touches only its goroutine's own record (or a write-once
     field nobody else writes) and commutes with every step of every other goroutine: the request-local steps
@@ -162,7 +166,7 @@ def advance (d : DS) (f : St → List Nat → Option (St × List Nat)) : List (S
   (dedupe (rs.flatMap (·.1)), rs.any (·.2))
 
 def spawnPlain (s : St) (dst : Nat) : St × Nat :=
-  (spawnTask s { pc := .check1, mode := .plain, orig := dst, dest := dst, ev := .allow }, s.ntasks)
+  (spawnTask s { pc := .check1, mode := .plain, orig := dst, dest := dst, ev := .allow, prev := curServer s }, s.ntasks)
 
 def taskRes (s : St) (i : Nat) : String :=
   let T := s.tasks i
@@ -209,11 +213,14 @@ def judge (d : DS) (op : String) (args : List String) (impl : String) (mp : Nat)
        else some "viol:left-behind-after-quit")
     else if o.lists ≠ o.cur then some "viol:list-mismatch"
     else if o.open_ ≠ o.cur then some "viol:live-backends"
-    else if o.pend > d.outstanding + d.orphaned + (if op = "start" then 1 else 0) then some "viol:leaked-attempt"
+    else if o.pend > d.outstanding + d.orphaned + (if op = "start" || op = "loginstall" then 1 else 0) then some "viol:leaked-attempt"
     else none
   match consistent with
   | some v => v
   | none =>
+    let (op, args) := match op, args with
+      | "conn", [_, dst] => ("req", [dst])     -- Connect on a kept request object is judged like any request
+      | o, a => (o, a)
     match op, args, ws with
     | "req", [dst], r :: _ =>
       if mp > d.outstanding + d.orphaned + 1 then "viol:two-attempts-in-flight"
@@ -268,6 +275,9 @@ def stepDriver (d : DS) (c0 : Case) : DS × String × String :=
   | "script", [srv, behs] =>
     let l := (behs.splitOn ".").filterMap parseBeh
     ({ d with states := d.states.map fun (s, ids) => ({ s with scripts := upd s.scripts (srvOf srv) l }, ids) }, "ok", "-")
+  | "create", [k, srv] =>
+    ({ d with states := d.states.filterMap fun (s, ids) =>
+        (step d.cfg s (.create (srvOf srv) (k.toNat?.getD 0))).map (·, ids) }, "ok", "-")
   | op, args =>
     -- environment action(s) of this op and the rendering of a quiescent state
     let spec : Option ((St → List Nat → Option (St × List Nat)) × ((St × List Nat) → String × (St × List Nat))) :=
@@ -278,6 +288,22 @@ def stepDriver (d : DS) (c0 : Case) : DS × String × String :=
           | [] => none
           | t0 :: _ => some (spawnTask s { pc := .check1, mode := .indication, orig := t0, dest := t0, ev := .allow }, ids),
           fun (s, ids) => ((if s.active then "ok " else "fail ") ++ observe s, (s, ids)))
+      | "loginstall", [] =>
+        some (fun s ids =>
+          match d.cfg.try_ with
+          | [] => none
+          | t0 :: _ =>
+            some (spawnTask s { pc := .check1, mode := .indication, orig := t0, dest := t0, ev := .allow }, ids ++ [s.ntasks]),
+          fun (s, ids) =>
+            let r := taskRes s ids.getLast!
+            if r = "blocked" then ("stalled " ++ observe s, (s, ids))
+            else ("returned:" ++ r ++ " " ++ observe s, (s, ids.dropLast)))
+      | "conn", [k, _dst] =>
+        some (fun s ids =>
+          match (range s.ntasks).find? fun i => (s.tasks i).tag = k.toNat?.getD 0 && (s.tasks i).pc == .created with
+          | some i => (step d.cfg s (.task i)).map (·, ids ++ [i])
+          | none => none,
+          fun (s, ids) => (taskRes s ids.getLast! ++ " " ++ observe s, (s, ids.dropLast)))
       | "req", [dst] =>
         some (fun s ids => let (s', i) := spawnPlain s (srvOf dst); some (s', ids ++ [i]),
           fun (s, ids) => (taskRes s ids.getLast! ++ " " ++ observe s, (s, ids.dropLast)))
@@ -344,6 +370,7 @@ def stepDriver (d : DS) (c0 : Case) : DS × String × String :=
     let outstanding' :=
       match op with
       | "start" => if c.impl.startsWith "stalled" then d.outstanding + 1 else d.outstanding
+      | "loginstall" => if c.impl.startsWith "stalled" then d.outstanding + 1 else d.outstanding
       | "release" => 0
       | "kick" => if c.impl.startsWith "nolive" then d.outstanding else 0
       | "drop" => if c.impl.startsWith "nolive" then d.outstanding else 0
